@@ -344,6 +344,45 @@ def flow(body):
     return f
 
 
+def value_chains(body, local, limit=40):
+    """def-use chains origin -> ... -> local as lists of def points (origin first).  Origins are non-view calls or arguments."""
+    fl = flow(body)
+    chains = []
+
+    def rec(l, suffix, visiting):
+        if len(chains) >= limit:
+            return
+        srcs = fl.sources(l)
+        if not srcs:
+            chains.append(suffix)
+            return
+        for kind, data, pt in srcs:
+            if kind == "copy":
+                nxt = [data]
+            elif kind in ("ref", "field", "discr"):
+                nxt = [data["local"]]
+            elif kind == "view":
+                nxt = [data[1]]
+            elif kind == "agg":
+                nxt = [op_root(o) for o in data["rv"]["ops"] if op_root(o) is not None]
+            elif kind == "arg":
+                chains.append([("arg", data)] + suffix)
+                continue
+            elif kind == "call":
+                chains.append([pt] + suffix)
+                continue
+            else:
+                continue
+            for n in nxt:
+                if (n, pt) in visiting:
+                    continue
+                rec(n, [pt] + suffix, visiting | {(n, pt)})
+
+    rec(local, [], frozenset())
+    return chains
+
+
+
 # ------------------------------------------------------------------------------------------
 # lock regions
 
